@@ -330,7 +330,8 @@ func (g *pgen) genSingle() *single {
 		s.text = "%" + string(cl)
 		s.accept = classAccept(cl)
 	case k < 76: // escaped magic / punctuation
-		c := "^$()%.[]*+-?!,;"[rapid.IntRange(0, 14).Draw(g.t, "esc")]
+		// also letters that name no class: lstrlib's default case takes them literally, upper case included (no complement)
+		c := "^$()%.[]*+-?!,;QEKNYTeknyt"[rapid.IntRange(0, 25).Draw(g.t, "esc")]
 		s.text = "%" + string(c)
 		s.accept[c] = true
 	case k < 96:
@@ -407,7 +408,7 @@ func (g *pgen) genSet(s *single) {
 			}
 			prevEsc, prevRange = true, false
 		default: // escaped magic
-			c := "]-%^[.$"[rapid.IntRange(0, 6).Draw(g.t, "setesc")]
+			c := "]-%^[.$QEKNBFekn"[rapid.IntRange(0, 15).Draw(g.t, "setesc")]
 			b.WriteByte('%')
 			b.WriteByte(c)
 			acc[c] = true
